@@ -2,9 +2,12 @@
 
 PROPS = {
     "C18": {
-        "harness": [{"name": "c18"}],
+        "harness": [{"name": "c18"}, {"name": "c18view", "share": 0.5}],
         "n_quick": 400, "n_thorough": 20000,
+        "known_for": ["C18"],
+        "partial": "third clause: only the direction view -> selectable is a theorem (C18_view_sound_partial); the converse is refuted by C18_view_complete_refuted (known finding KF-view-fragment-only-type) and checked case by case outside that finding's guard",
         "assumptions": [
+            "the gateway's merged schema names its roots Query/Mutation/Subscription (merge.go; validate.go rejects renamed roots)",
             "encoding/json drives AllowedFields.UnmarshalJSON as modelled (decode over the existing value; fresh zero value per map element)",
             "a Go map value satisfies wf (unique keys); the harness hands trees to Coq with keys sorted",
         ],
@@ -112,8 +115,8 @@ PROPS = {
 META = {
     "_hook_commits": ["f6c346a"],
     "C18": {
-        "text": "Theorems C18_roundtrip and C18_union (all permission trees with unique keys, all finite families, all paths; structural induction, no bound) over the Gallina model of auth.go's MarshalJSON/UnmarshalJSON/MergeAllowedFields; the model is tied to /repo on every run by evaluating it on random trees, JSON inputs (incl. malformed) and families and comparing with what the real exported API returned; the property is also evaluated directly on the observed outputs.",
-        "note": "Trusted: Coq kernel + vm_compute; the hand model's reading of encoding/json's decode-over-existing-value; the Go harness and driver. No axioms. FilterSchema/filterFields agreement (third clause) is checked in C03/C17's schema-level checks, theorem pending.",
+        "text": "Theorems C18_roundtrip and C18_union (all permission trees with unique keys, all finite families, all paths; structural induction, no bound) over the Gallina model of auth.go's MarshalJSON/UnmarshalJSON/MergeAllowedFields, and C18_view_sound_partial (every field of every type in the view FilterSchema builds is selectable by a query that filtering leaves intact; all schemas, permission sets and fuel; induction on fuel over an open-recursion model of filterDefinition with its shared types map and per-subtree visited set); the converse is refuted by a vm_compute witness (C18_view_complete_refuted); the model is tied to /repo on every run by evaluating it on random trees, JSON inputs (incl. malformed) and families and comparing with what the real exported API returned; the property is also evaluated directly on the observed outputs.",
+        "note": "Trusted: Coq kernel + vm_compute; the hand model's reading of encoding/json's decode-over-existing-value; the Go harness and driver. No axioms. Third clause: Model/View.v is tied to auth.go by running FilterSchema on merged schemas x random permission trees (corr.view) and the observed view is judged against the computed Selectable set in both directions.",
         "technique": "Coq proof (nested induction on permission trees) + differential correspondence check model vs exported Go API",
     },
     "C01": {
